@@ -73,6 +73,12 @@ def bleOp (s : Ble) (r : Radio) : List String → Option (Ble × Radio × String
   | ["advl", l] => do
     let l ← parseHexList l
     pure (s, r, showPyM (fun x => "sent=" ++ hex x) (s.advertise r (.list l)))
+  -- `advlm <chunks>`: ONE list of bytearrays advertised twice; the caller's list is not modified, so both packets are
+  -- the same, and the list is printed as it is afterwards
+  | ["advlm", l] => do
+    let l ← parseHexList l
+    pure (s, r, showPyM (fun x => "sent=" ++ hex x ++ "," ++ hex x) (s.advertise r (.list l))
+               ++ " list=" ++ ",".intercalate (l.map hex))
   | ["advbad"] => some (s, r, showPyM (fun x => "sent=" ++ hex x) (s.advertise r .other))
   | ["rx", p] => do
     let p ← unhex p
